@@ -255,7 +255,8 @@ CHECKS = {
              "the proxy's own (X-Hippo-Injected) requests against an independent cap table. Copy + replay (the addon_examples/message_mirror.py pattern) with the "
              "real proxy-side _pump_callbacks and request hook in the loop (only replay.client stubbed): every intercepted flow object resumed exactly once per "
              "interception, copies have fresh ids; preempt() after {never taken, taken and released in the hook, taken and released later}: exactly one preempt "
-             "item carrying the injected response.",
+             "item carrying the injected response. Flows whose incoming state already carries a stale cap attribution (replays; consumed TEMPORARY cap) must be "
+             "handed back with what the URL resolves to now on both legs; wait_for() waiters that ended by timeout, cancellation or an earlier flow own nothing.",
         note="Waiter ownership is taken from the public contract (dispatched to a default-take waiter means owned until its resume()). A taken, never-resumed flow stays with its taker; faults are Python exceptions at the listed points; pickling/OS-queue failure, a real mitmproxy master, TLS "
              "and sockets are out of scope; mitmproxy.ctx.master stubbed for replay/shutdown; ownership is per flow (first successful take() until the one successful resume()); "
              "includes the owner of a taken flow's cap data (region/session) being dropped and garbage-collected before release; wrapper-cap requests: an addon's "
@@ -273,7 +274,7 @@ CHECKS = {
              "well-formed; a stale poll repeats the immediately preceding ack; no two simulators share a seed URL; teardown may drop pending injections; injected events "
              "are only required to keep FIFO order among themselves; the wake-up PlacesQuery is observed, not demanded; 2-3 regions with independent event queues; "
              "announcements may reuse a known handle at a new address or a known address with a new handle; mid-poll teardown is enumerated once per region, for the "
-             "emptied-response and single-announcement answers."),
+             "emptied-response and single-announcement answers; a region may be granted a second EventQueueGet URL (Seed re-fetch), later polls use the new URL."),
     "C19": dict(
         category="model_checking", design_ref="DESIGN.md §4 C19",
         technique="explicit-state BFS with deviation bounding over the real client endpoint under a virtual loop/clock (history-replay successors, canon-deduplicated "
